@@ -90,6 +90,18 @@ pub fn bases() -> Vec<InstRep> {
         one_hot: vec![(1, vec![1, 2]), (2, vec![2])],
         ..Default::default()
     });
+    // B4: ids that occur only in explicit-zero entries / zero-coefficient terms still have to be defined
+    v.push(InstRep {
+        sense: SENSE_MIN,
+        objective: Some(FnRep::Quad { entries: vec![(1, 2, 0.0), (3, 3, 0.0)], lin: Some((vec![], 1.0)) }),
+        vars: vec![VarRep::new(3, KIND_CONTINUOUS, None), VarRep::new(1, KIND_INTEGER, Some((0.0, 4.0))), VarRep::new(2, KIND_BINARY, None)],
+        constraints: vec![
+            ConRep::new(10, LE_ZERO, Some(lin(vec![(1, 0.0), (2, 1.0)], -1.0))),
+            ConRep::new(11, EQ_ZERO, Some(FnRep::Poly { terms: vec![(vec![3, 1], 0.0), (vec![], 0.0)] })),
+        ],
+        removed: vec![RemRep { constraint: ConRep::new(12, LE_ZERO, Some(FnRep::Quad { entries: vec![(2, 2, 0.0)], lin: None })), reason: "r".into(), parameters: vec![] }],
+        ..Default::default()
+    });
     v
 }
 
